@@ -97,11 +97,91 @@ fn one(sink: &mut e1::Sink, is_long: bool, size_usd: u64, size_tokens: u64, cap:
     sink.sample(rp);
 }
 
+/// executed decreases: the pnl realised by a real `DecreasePosition` is the share of the position's pnl that belongs to the size
+/// that was actually closed (a partial decrease may be promoted to a full close)
+fn decreases(rep: &mut Report, thorough: bool) {
+    use crate::ph::d4::{update_fees, M};
+    use gmsol_model::action::decrease_position::DecreasePositionFlags;
+    use gmsol_model::{LiquidityMarketMutExt, MarketAction, PositionMutExt};
+    // (config, is_long, collateral is the long token, collateral amount, size)
+    let mut opens: Vec<(usize, bool, bool, u64, u64)> = vec![];
+    for k in if thorough { vec![0usize, 2, 3, 6, 9] } else { vec![0usize, 2, 6] } {
+        for (is_long, cl, c, size) in [(true, true, 10_000u64, 500_000u64), (true, false, 360_000, 2_000_000), (false, false, 200_000, 1_000_000), (false, true, 30_000, 1_000_000), (true, true, 40_000, 300_000)] {
+            opens.push((k, is_long, cl, c, size));
+        }
+    }
+    let counters = e1::run(rep, "executed decreases: realised pnl vs closed size", &opens, |&(k, is_long, cl, c, size), sink| {
+        let (_, cfg) = ph::config(k, 0);
+        let at = |lo: u64, hi: u64| Prices { index_token_price: Price { min: lo, max: hi }, long_token_price: Price { min: lo, max: hi }, short_token_price: Price { min: 1, max: 1 } };
+        let mut m0 = M::new(cfg);
+        m0.deposit(1_000_000, 12_000_000, at(12, 12)).and_then(|a| a.execute()).expect("seeding deposit");
+        let mut p0 = VPos { is_long, is_collateral_long: cl, ..Default::default() };
+        let opened = VPosOps { market: &mut m0, pos: &mut p0 }.increase(at(12, 12), c, size, None).and_then(|a| a.execute());
+        if opened.is_err() {
+            sink.case(false);
+            sink.count("open_rejected");
+            return;
+        }
+        for (lo, hi) in [(10u64, 10u64), (11, 11), (11, 13), (12, 12), (13, 13), (15, 15)] {
+            for dt in [0u64, 3_600] {
+                // (requested size, collateral withdrawal): halves and thirds, everything, all but one unit (below the minimum
+                // position size: promoted to a full close), a tenth with most of the collateral withdrawn (promoted when the
+                // rest cannot carry the position)
+                for (req, wd) in [(p0.size_usd / 2, 0u64), (p0.size_usd, 0), (p0.size_usd - 1, 0), (p0.size_usd / 10, p0.collateral / 10 * 9), (p0.size_usd / 3, 100), (p0.size_usd / 10 * 9, 0), (p0.size_usd / 10, p0.collateral)] {
+                    let rp = || json!({"section": "decreases", "config": k, "is_long": is_long, "collateral_long": cl, "collateral": c, "size": size, "price": [lo, hi], "dt": dt, "requested": req, "withdraw": wd});
+                    let pr = at(lo, hi);
+                    let (mut m, mut p) = (m0.clone(), p0);
+                    m.clocks.now += dt;
+                    if update_fees(&mut m, &pr).is_err() {
+                        sink.case(false);
+                        continue;
+                    }
+                    let before = p;
+                    let r = mc_core::catch(|| VPosOps { market: &mut m, pos: &mut p }.decrease(pr, req, None, wd, DecreasePositionFlags::default()).and_then(|a| a.execute()));
+                    let Ok(r) = r else {
+                        sink.case(false);
+                        sink.fail("C11/panic", "decrease panicked".into(), rp());
+                        continue;
+                    };
+                    sink.case(r.is_ok());
+                    let Ok(report) = r else { continue };
+                    let closed = if report.should_remove() { before.size_usd } else { before.size_usd - p.size_usd };
+                    if closed > req {
+                        sink.count("partial_decrease_promoted_to_a_larger_close");
+                    }
+                    // the share of the pnl that belongs to the closed size, evaluated on the state right before the decrease
+                    let (mut mm, mut pp) = (m0.clone(), before);
+                    mm.clocks.now += dt;
+                    let _ = update_fees(&mut mm, &pr);
+                    let Ok((want, want_unc, _)) = VPosOps { market: &mut mm, pos: &mut pp }.pnl_value(&pr, &closed) else {
+                        sink.fail("C11/executed_decrease_pnl_reference_fails", format!("pnl_value fails for the closed size {closed}"), rp());
+                        continue;
+                    };
+                    let (got, got_unc) = (*report.pnl().pnl(), *report.pnl().uncapped_pnl());
+                    if got != want || got_unc != want_unc {
+                        sink.fail("C11/executed_decrease_pnl_not_proportional_to_closed_size", format!("requested {req} of {}, closed {closed}: realised pnl {got} (uncapped {got_unc}), the share of the closed size is {want} (uncapped {want_unc})", before.size_usd), rp());
+                    }
+                    if got > got_unc {
+                        sink.fail("C11/credited_pnl_exceeds_uncapped", format!("executed decrease: pnl {got} > uncapped {got_unc}"), rp());
+                    }
+                }
+            }
+        }
+    });
+    if rep.violations_total() == 0 && counters.get("partial_decrease_promoted_to_a_larger_close").copied().unwrap_or(0) == 0 {
+        rep.machinery("vacuous: no partial decrease was promoted to a larger close");
+    }
+}
+
 pub fn run(cli: &Cli) -> Report {
     let mut rep = Report::new(cli, "exploration");
-    rep.rule("E1: product of (side, size in usd, size in tokens, trader pnl cap factor, pool amounts, other open interest of the side) x an ascending list of 14 index prices x partial close sizes, on PositionExt::pnl_value of the real model (UNIT=10^4); non-trivial = pnl computed");
+    rep.rule("E1 (second section: real positions opened through IncreasePosition on a seeded market for 3 (thorough 5) configurations x 5 position kinds x 6 price pairs x 2 clock offsets x 7 decreases (halves, thirds, full, all but one unit, a tenth with most or all of the collateral withdrawn) executed through DecreasePosition: the realised pnl must be the share of the size that was actually closed, also when a partial decrease is promoted to a full close). First section: product of (side, size in usd, size in tokens, trader pnl cap factor, pool amounts, other open interest of the side) x an ascending list of 14 index prices x partial close sizes, on PositionExt::pnl_value of the real model (UNIT=10^4); non-trivial = pnl computed");
     rep.assume("long-token price held fixed while the index price moves (the cap depends on pool value)");
     if let Some(rv) = &cli.replay {
+        if rv["section"] == "decreases" {
+            decreases(&mut rep, true);
+            return rep;
+        }
         for _ in 0..2 {
             e1::run(&mut rep, "replay", &[0u8], |_, sink| {
                 let g = |k: &str| rv[k].as_u64().unwrap_or(0);
@@ -136,6 +216,7 @@ pub fn run(cli: &Cli) -> Report {
             }
         }
     });
+    decreases(&mut rep, t.thorough());
     rep
 }
 
